@@ -125,6 +125,19 @@ class C16(Prop):
             slack = rng.choice([0, 1, 2, 20, 20])
             cases.append({"f": "run", "manager": "rollback", "limit": mx + 1 + slack, "slack": slack, "shape": shape,
                           "faults": faults, "sched": rng.randrange(1 << 30) if rng.random() < 0.5 else None})
+        # a scatter element that fails LAST (after all its siblings completed) with loss of data: its own rollback, then the
+        # consumer of the gather discovers the siblings' outputs are gone and rolls the scatter back for the other elements
+        # (two sequential recoveries restoring complementary sets of element tags, multi-digit indexes included)
+        for i in range({"quick": 6, "thorough": 100, "extended": 30}[tier]):
+            w = rng.choice([11, 12, 12, 12, rng.randrange(2, 13)])
+            e = rng.choice([x for x in (1, 10, 11, 0, 2, rng.randrange(0, w)) if x < w])
+            if i < 2:   # always present: the element whose tag "0.1" is a textual prefix of "0.10"/"0.11"
+                w, e = 12 - i, 1
+            shape = {"kind": "scatter", "type": "file", "pre": rng.randrange(0, 2), "width": w, "depth": 1, "post": 1}
+            cases.append({"f": "run", "manager": "rollback", "limit": 22, "slack": 20, "shape": shape,
+                          "faults": [["/b0", f"0.{e}", "execute", "failstop", 1]],
+                          "last": {"jobs": [f"/b0/0.{e}"], "prefix": "/b0/", "need": w - 1},
+                          "sched": rng.randrange(1 << 30) if rng.random() < 0.5 else None})
         return cases
 
     # ---------------------------------------------------------------- implementation
@@ -230,7 +243,7 @@ class C16(Prop):
         if c.get("sched") is not None:
             yield {**c, "sched": None}
         sh = c["shape"]
-        if sh["kind"] == "scatter" and sh["width"] > 1:
+        if sh["kind"] == "scatter" and sh["width"] > 1 and "last" not in c:
             w = sh["width"] - 1
             if all(not (f[1].startswith("0.") and int(f[1].split(".")[1]) >= w) for f in fs):
                 yield {**c, "shape": {**sh, "width": w}}
